@@ -151,6 +151,53 @@ def _run_lines(cmd, lines, env=None, timeout=600, cwd=None):
         return -9, so, se, True
 
 
+def _run_lines_watch(cmd, lines, env=None, timeout=600, stall=20):
+    """as _run_lines, but the child is also killed when it has produced no output for `stall` seconds (the
+    runner answers every request with one flushed line, so silence = a request that does not return)"""
+    import threading
+    import time as _t
+    data = ("\n".join(lines) + "\n").encode()
+    p = subprocess.Popen(cmd, stdin=subprocess.PIPE, stdout=subprocess.PIPE, stderr=subprocess.PIPE, env=env)
+    chunks, errs = [], []
+    last = [_t.time()]
+
+    def feed():
+        try:
+            p.stdin.write(data)
+            p.stdin.close()
+        except (BrokenPipeError, OSError):
+            pass
+
+    def rd(stream, sink, touch):
+        while True:
+            b = stream.read1(1 << 16) if hasattr(stream, "read1") else stream.read(1 << 16)
+            if not b:
+                break
+            sink.append(b)
+            if touch:
+                last[0] = _t.time()
+
+    ts = [threading.Thread(target=feed, daemon=True), threading.Thread(target=rd, args=(p.stdout, chunks, True), daemon=True),
+          threading.Thread(target=rd, args=(p.stderr, errs, False), daemon=True)]
+    for t in ts:
+        t.start()
+    t0 = _t.time()
+    timed_out = False
+    while p.poll() is None:
+        _t.sleep(0.05)
+        now = _t.time()
+        if now - last[0] > stall or now - t0 > timeout:
+            timed_out = True
+            p.kill()
+            break
+    p.wait()
+    for t in ts[1:]:
+        t.join(5)
+    so = b"".join(chunks).decode("utf-8", "replace")
+    se = b"".join(errs).decode("utf-8", "replace")
+    return (-9 if timed_out else p.returncode), so, se, timed_out
+
+
 def run_go(reqs, runner=None, timeout=300, env_extra=None, per_req_timeout=20):
     """Runs requests through the Go runner. Returns a list aligned with `reqs`; a request on which
     the process died or hung is answered {'r': 'crash'|'hang', 'stderr': ...}."""
@@ -164,13 +211,12 @@ def run_go(reqs, runner=None, timeout=300, env_extra=None, per_req_timeout=20):
         r["id"] = i
     pending = list(range(len(reqs)))
     first = True
+    failures = 0
     while pending:
         lines = [json.dumps(reqs[i]) for i in pending]
         e = dict(env)
-        if not first:
-            e["RUNNER_FLUSH"] = "1"
-        rc, so, se, timed_out = _run_lines([runner], lines, env=e,
-                                           timeout=timeout if first else max(per_req_timeout * 3, 30))
+        e["RUNNER_FLUSH"] = "1"
+        rc, so, se, timed_out = _run_lines_watch([runner], lines, env=e, timeout=timeout, stall=per_req_timeout)
         got = 0
         for ln in so.splitlines():
             if not ln.strip():
@@ -189,11 +235,11 @@ def run_go(reqs, runner=None, timeout=300, env_extra=None, per_req_timeout=20):
             first = False
             if got == 0 and rc == 0:
                 raise RuntimeError("runner produced no output: " + se[-2000:])
-            continue
-        # flushed re-run: the first unanswered request is the one that killed / hung the process
+        # every answer is flushed: the first unanswered request is the one that killed / hung the process
         culprit = pending[0]
         # confirm alone
-        rc1, so1, se1, to1 = _run_lines([runner], [json.dumps(reqs[culprit])], env=e, timeout=per_req_timeout)
+        rc1, so1, se1, to1 = _run_lines_watch([runner], [json.dumps(reqs[culprit])], env=e, timeout=per_req_timeout + 10,
+                                              stall=per_req_timeout)
         ans = None
         for ln in so1.splitlines():
             try:
@@ -203,11 +249,63 @@ def run_go(reqs, runner=None, timeout=300, env_extra=None, per_req_timeout=20):
             except ValueError:
                 pass
         if ans is not None:
-            out[culprit] = ans
+            # answered when run alone: does it die / hang only AFTER earlier requests of the same process
+            # (state that survives between calls: a leaked lock, a poisoned cache)?  Replayed, not assumed.
+            hist = _history_failure(runner, reqs, culprit, e, per_req_timeout)
+            if hist is not None:
+                out[culprit] = hist
+                failures += 1
+            else:
+                out[culprit] = ans
         else:
             out[culprit] = {"id": culprit, "r": "hang" if to1 else "crash", "stderr": se1[-3000:], "rc": rc1}
+            failures += 1
+        if failures >= 1:
+            # every check stops at its first violation (the earliest failing request, which this is): the
+            # remaining requests are not re-run
+            for i in pending:
+                if out[i] is None:
+                    out[i] = {"id": i, "r": "aborted", "msg": "not run: an earlier request crashed or hung the runner"}
         pending = [i for i in pending if out[i] is None]
     return out
+
+
+def _answered(runner, reqs, ids, env, timeout):
+    rc, so, se, to = _run_lines_watch([runner], [json.dumps(reqs[i]) for i in ids], env=env, timeout=timeout + 60,
+                                      stall=timeout)
+    got = {}
+    for ln in so.splitlines():
+        try:
+            o = json.loads(ln)
+            got[o.get("id")] = o
+        except ValueError:
+            pass
+    return got, rc, se, to
+
+
+def _history_failure(runner, reqs, culprit, env, per_req_timeout):
+    """`culprit` answers alone but was left unanswered inside its batch.  Re-run it after the (up to 300)
+    requests that preceded it in a fresh process; if it is unanswered again, shrink to the shortest suffix
+    of predecessors that still reproduces it and return a 'hang'/'crash' answer carrying that history."""
+    window = list(range(max(0, culprit - 300), culprit + 1))
+    got, rc, se, to = _answered(runner, reqs, window, env, per_req_timeout + 10)
+    if culprit in got:
+        return None                      # not reproducible: a spurious timeout of the batch
+    lo, hi = 0, len(window) - 1          # window[lo:] fails; window[hi:] = [culprit] alone succeeds
+    last = (rc, se, to)
+    while hi - lo > 1:
+        mid = (lo + hi) // 2
+        g2, rc2, se2, to2 = _answered(runner, reqs, window[mid:], env, per_req_timeout + 10)
+        if culprit in g2:
+            hi = mid
+        else:
+            lo = mid
+            last = (rc2, se2, to2)
+    rc, se, to = last
+    return {"id": culprit, "r": "hang" if to else "crash", "rc": rc, "stderr": se[-3000:],
+            "after": [{k: v for k, v in reqs[i].items() if k != "id"} for i in window[lo:-1]],
+            "msg": "answers alone, but not after the %d earlier request(s) listed under 'after' in the same process"
+                   % (len(window) - 1 - lo)}
 
 
 def run_lean(reqs, timeout=900):
